@@ -90,6 +90,16 @@ def fragAny (o : Opts) (n : BNet) : String :=
        ("NamesOK", fun _ => decide (NamesOK o n)),
        ("BBPlain", fun _ => decide (BBPlain n t))])
 
+/-- `eblif_roundtrip_leaf_ports`: the hypotheses of `eblif_roundtrip_any_order` and three more -/
+def fragLeaf (o : Opts) (n : BNet) : String :=
+  let r := fragAny o n
+  if r ≠ "in" then r else
+  match n.top with
+  | none => "out:no-top"
+  | some t =>
+    firstFail [("PinMirror", fun _ => decide n.PinMirror), ("NoDangling", fun _ => decide (Any.NoDangling n)),
+               ("BBWide", fun _ => decide (Any.BBWide n t))]
+
 /-- `eblif_roundtrip_subckt_total` -/
 def fragSubckt (o : Opts) (n : BNet) : String :=
   match n.top with
